@@ -976,6 +976,23 @@ class Exec:
     def call_any(self, node, st):
         return self._quant(node, st, False)
 
+    def call_call(self, node, st):
+        """Client code in a lemma body: call("<qualname>", args...) goes through the callee's CONTRACT (its preconditions become
+        obligations of the lemma, its postconditions are assumed) -- this is how compositions of proved functions are checked."""
+        if self.mod is not None or not node.args or not isinstance(node.args[0], ast.Constant):
+            raise OutOfSubset('call(...) outside a lemma body')
+        q = node.args[0].value
+        if q not in self.reg.contracts:
+            raise OutOfSubset('call of %s (no contract)' % q)
+        inner = ast.copy_location(ast.Call(func=ast.Name(id='_', ctx=ast.Load()), args=node.args[1:], keywords=node.keywords), node)
+        args, kwargs = self.args_of(inner, st)
+        save = self.spec_mode
+        self.spec_mode = False
+        try:
+            return self.apply_contract(self.reg.contracts[q], None, args, kwargs, node, st)
+        finally:
+            self.spec_mode = save
+
     def call_implies(self, node, st):
         a = self.zbool(self.truth(self.ev(node.args[0], st)))
         st.guards.append(a)
